@@ -37,6 +37,8 @@ class Goldens:
         self.cache = {}
         self.lock = threading.Lock()
         self.stats = {"goldens": 0, "pure_rechecks": 0, "golden_processes": 0}
+        # hash seeds of the golden processes vary with the batch (VERIF_SEED), not with timing
+        self.base = int(os.environ.get("VERIF_SEED", "1") or 1)
 
     def get(self, seed: int, keys: dict) -> dict:
         """Goldens for `keys`. Everything a golden process depends on is derived from the
@@ -48,7 +50,7 @@ class Goldens:
             need = {k: v for k, v in keys.items() if k not in self.cache}
         if need:
             ident = "|".join(sorted(need))
-            hs = {"A": derive(0, "golden", "A", ident) % 1000003 + 1, "B": derive(0, "golden", "B", ident) % 1000003 + 7, "P": derive(0, "golden", "P", ident) % 1000003 + 13}
+            hs = {"A": derive(self.base, "golden", "A", ident) % 1000003 + 1, "B": derive(self.base, "golden", "B", ident) % 1000003 + 7, "P": derive(self.base, "golden", "P", ident) % 1000003 + 13}
             ra = self._run(need, "A", hs["A"], aslr=False)
             rb = self._run(need, "B", hs["B"], aslr=True)
             pick = sorted(need)[derive(0, "golden", "pick", ident) % len(need)]
@@ -425,6 +427,7 @@ def write_replay(prop: str, v: dict, minimised: bool) -> str:
         "key": v.get("key"),
         "request": v.get("request"),
         "batch_requests": v.get("batch_requests"),
+        "golden_base": int(os.environ.get("VERIF_SEED", "1") or 1),
     }
     with open(path, "w") as f:
         json.dump(doc, f, indent=1, sort_keys=True)
@@ -438,6 +441,7 @@ def replay(prop: str, path: str):
         # golden-disagree: recompute the goldens of the same batch (same keys compiled together,
         # hence the same hash seeds, ASLR settings and order as in the failing run)
         g = Goldens()
+        g.base = int(doc.get("golden_base") or g.base)
         batch = doc.get("batch_requests") or {doc["key"]: doc["request"]}
         res = g.get(0, batch)
         bad = bool(res[doc["key"]].get("disagree"))
